@@ -190,6 +190,7 @@ class HydrogenIon(Contribution):
 
     def prepare_each(self, model, wngrid):
         self._nlayers = model.nLayers
+        self._ngrid = wngrid.shape[0]
         self._P_dyne = model.pressureProfile * 1e6
 
         ## Since our pressure is in Pa already:
